@@ -47,9 +47,9 @@ func c01Setup(rc *RunCtx) simrt.Config {
 	cfg, sname := drawSimConfig(r, 30000)
 	c := &c01cfg{}
 	c.kind = TransportKind(r.Choose(8))
-	c.callers = 1 + r.Choose(8)
+	c.callers = 1 + r.Choose(widen(8, 14))
 	for i := 0; i < c.callers; i++ {
-		c.perCall = append(c.perCall, 1+r.Choose(6))
+		c.perCall = append(c.perCall, 1+r.Choose(widen(6, 10)))
 	}
 	c.idMode = r.Choose(4)
 	c.pCancel = []int{0, 0, 10, 30}[r.Choose(4)]
